@@ -95,7 +95,11 @@ def gen_case(rng, tier, idx):
 
 def generate(rng, tier):
     n = 120 if tier == "quick" else 1200
-    return [gen_case(rng, tier, i) for i in range(n)]
+    cases = [gen_case(rng, tier, i) for i in range(n)]
+    for c in cases:
+        if not c["eager"] and rng.random() < 0.3:
+            c["warm_v"] = rng.choice([w for w in (0.0, 2.0, -1.0, 0.5) if w != c["v"]])
+    return cases
 
 
 def nontrivial(case):
@@ -138,7 +142,14 @@ def run_impl(case):
     try:
         tf.random.set_seed(case["tfseed"])
         expl = Rise(model, batch_size=case["bs"], nb_samples=nb, grid_size=grid,
-                    preservation_probability=case["p"], mask_value=case["v"])
+                    preservation_probability=case["p"], mask_value=case.get("warm_v", case["v"]))
+        if case.get("warm_v") is not None:
+            # re-use: a first call with another mask_value (result discarded), then the public attribute is changed and the
+            # same object explains the same shapes again (graph mode: a value frozen at trace time would survive)
+            expl.explain(xs, ts)
+            model.queries.clear()
+            expl.mask_value = case["v"]
+            tf.random.set_seed(case["tfseed"])
         out = np.asarray(expl.explain(xs, ts))
     finally:
         tf.config.run_functions_eagerly(False)
